@@ -151,6 +151,8 @@ class ExtraCoords(ExtraCoordsABC):
         # one pixel dimension having more than one lookup coord.
         self._lookup_tables = list()
         self._dropped_tables = list()
+        # World dimensions of a WCS that slicing has reduced to nothing.
+        self._dropped_wcs_dimensions = None
 
         # We need a reference to the parent NDCube
         self._ndcube = ndcube
@@ -401,7 +403,10 @@ class ExtraCoords(ExtraCoordsABC):
         # It's valid to slice down the EC such that there is nothing left,
         # which is not a valid way to slice the WCS
         if all(isinstance(i, Integral) for i in wcs_item):
-            return type(self)()
+            # Nothing of the WCS is left; remember the coordinates at the position sliced away.
+            new_ec = type(self)()
+            new_ec._dropped_wcs_dimensions = self._wcs_dimensions_dropped_by(wcs_item)
+            return new_ec
 
         if hasattr(self.wcs, "__getitem__"):
             subwcs = self.wcs[tuple(wcs_item[::-1])]
@@ -420,6 +425,33 @@ class ExtraCoords(ExtraCoordsABC):
         new_ec._mapping = new_mapping
         return new_ec
 
+    def _wcs_dimensions_dropped_by(self, wcs_item):
+        """
+        The APE-14 style description of all world dimensions of the WCS at the integer
+        pixel position ``wcs_item`` (pixel order), added to those dropped before.
+        """
+        low_level_wcs = getattr(self.wcs, "low_level_wcs", self.wcs)
+        world = low_level_wcs.pixel_to_world_values(*wcs_item)
+        if low_level_wcs.world_n_dim == 1:
+            world = [world]
+        dropped = {
+            "value": list(world),
+            "world_axis_names": list(low_level_wcs.world_axis_names),
+            "world_axis_physical_types": list(low_level_wcs.world_axis_physical_types),
+            "world_axis_units": list(low_level_wcs.world_axis_units),
+            "world_axis_object_components": list(low_level_wcs.world_axis_object_components),
+            "world_axis_object_classes": dict(low_level_wcs.world_axis_object_classes),
+            "serialized_classes": low_level_wcs.serialized_classes,
+        }
+        before = self.dropped_world_dimensions
+        if "value" in before:
+            for key, value in before.items():
+                if key == "world_axis_object_classes":
+                    dropped[key].update(value)
+                elif key != "serialized_classes":
+                    dropped[key] = list(value) + dropped[key]
+        return dropped
+
     def __getitem__(self, item):
         # docstring in ABC
         if isinstance(item, str):
@@ -437,6 +469,7 @@ class ExtraCoords(ExtraCoordsABC):
         # coordinates dropped by earlier slices stay dropped.
         new_extra_coords = type(self)()
         new_extra_coords._dropped_tables = list(self._dropped_tables)
+        new_extra_coords._dropped_wcs_dimensions = self._dropped_wcs_dimensions
         return new_extra_coords
 
     @property
@@ -444,6 +477,9 @@ class ExtraCoords(ExtraCoordsABC):
         """
         Return an APE-14 like representation of any sliced out world dimensions.
         """
+
+        if self._dropped_wcs_dimensions is not None:
+            return self._dropped_wcs_dimensions
 
         if self._wcs:
             low_level_wcs = getattr(self._wcs, "low_level_wcs", self._wcs)
